@@ -165,6 +165,9 @@ struct DecSink {
     written: u64,
     consumed: Arc<AtomicU64>,
     worst_lag: i64,
+    /// the largest number of COMPLETE further records of the ciphertext that had been consumed when the first byte of a
+    /// record's plaintext was written ("each chunk is written before more than two further chunks of input have been consumed")
+    worst_chunk_lag: i64,
     table: Table,
     record: u64,
     record_pt_start: u64,
@@ -190,8 +193,24 @@ impl Write for DecSink {
                     continue;
                 }
                 if self.written == self.record_pt_start {
-                    let lag = self.consumed.load(Ordering::SeqCst) as i64 - e.2 as i64;
+                    let consumed = self.consumed.load(Ordering::SeqCst);
+                    let lag = consumed as i64 - e.2 as i64;
                     self.worst_lag = self.worst_lag.max(lag);
+                    // count the complete further records already consumed (their boundaries are in the table: bytes that
+                    // were consumed have been produced)
+                    let mut further = 0i64;
+                    let t = self.table.lock().unwrap();
+                    let mut j = self.record + 1;
+                    while further < 4096 {
+                        let n = t[(j as usize) % TABLE_CAP];
+                        if n.0 != j + 1 || n.2 > consumed {
+                            break;
+                        }
+                        further += 1;
+                        j += 1;
+                    }
+                    drop(t);
+                    self.worst_chunk_lag = self.worst_chunk_lag.max(further);
                     self.judged += 1;
                 }
                 break;
@@ -217,6 +236,7 @@ struct StreamReading {
     dec: allocmon::Reading,
     enc_lag: i64,
     dec_lag: i64,
+    dec_chunk_lag: i64,
     ok: bool,
     detail: String,
     records: u64,
@@ -253,7 +273,7 @@ fn stream(mode: Mode, len: u64, max_read: usize, seed: u64) -> StreamReading {
     let dc = dec_consumed.clone();
     let dec_thread = std::thread::spawn(move || {
         let mut reader = RingReader { ring: ring2, consumed: dc.clone(), max_read };
-        let mut sink = DecSink { written: 0, consumed: dc, worst_lag: i64::MIN, table: table2, record: 0, record_pt_start: 0, judged: 0, unjudged: 0, mismatch: false };
+        let mut sink = DecSink { written: 0, consumed: dc, worst_lag: i64::MIN, worst_chunk_lag: 0, table: table2, record: 0, record_pt_start: 0, judged: 0, unjudged: 0, mismatch: false };
         allocmon::begin();
         let res: Result<(), String> = match mode {
             Mode::Key => key_decrypt(&mut reader, &mut sink, &sk(&r), &pk(&r_pub), AsymFileFormat::V1).map(|_| ()).map_err(|e| e.to_string()),
@@ -268,7 +288,7 @@ fn stream(mode: Mode, len: u64, max_read: usize, seed: u64) -> StreamReading {
                 break;
             }
         }
-        (m, sink.worst_lag, sink.written, sink.mismatch, res, sink.judged, sink.unjudged)
+        (m, sink.worst_lag, sink.written, sink.mismatch, res, sink.judged, sink.unjudged, sink.worst_chunk_lag)
     });
     let consumed = std::rc::Rc::new(std::cell::Cell::new(0u64));
     let mut src = GenReader { len, pos: 0, max_read, consumed: consumed.clone() };
@@ -284,10 +304,10 @@ fn stream(mode: Mode, len: u64, max_read: usize, seed: u64) -> StreamReading {
     let sink_records = sink.record;
     drop(sink); // closes the ring
     let records = sink_records;
-    let (dm, dec_lag, dec_written, mismatch, dres, judged, unjudged) = dec_thread.join().expect("decrypt thread");
+    let (dm, dec_lag, dec_written, mismatch, dres, judged, unjudged, dec_chunk_lag) = dec_thread.join().expect("decrypt thread");
     let ok = eres.is_ok() && dres.is_ok() && dec_written == len && !mismatch;
     let detail = format!("encrypt={:?} decrypt={:?} decrypted_bytes={} pattern_mismatch={} ciphertext_records={} records_judged_on_the_decrypt_side={}", eres, dres, dec_written, mismatch, records, judged);
-    StreamReading { chunks: (len + chunk - 1) / chunk.max(1), enc: em, dec: dm, enc_lag, dec_lag, ok, detail, records, unjudged }
+    StreamReading { chunks: (len + chunk - 1) / chunk.max(1), enc: em, dec: dm, enc_lag, dec_lag, dec_chunk_lag, ok, detail, records, unjudged }
 }
 
 fn in_process(ctx: &Ctx) {
@@ -297,8 +317,8 @@ fn in_process(ctx: &Ctx) {
         for &n in &sizes {
             // not an exact multiple: the last chunk is short; reads are capped to provoke short chunks on one lane
             let len = n * CHUNK - 17;
-            for max_read in [usize::MAX, 40_000, crate::ioscript::VARIED_READS] {
-                if max_read == 40_000 && n > 256 {
+            for max_read in [usize::MAX, 40_000, crate::ioscript::VARIED_READS, 1000, 7] {
+                if (max_read == 40_000 && n > 256) || (max_read == 1000 && n > 16) || (max_read == 7 && n > 3) {
                     continue;
                 }
                 if max_read == crate::ioscript::VARIED_READS && n > 4096 {
@@ -311,7 +331,7 @@ fn in_process(ctx: &Ctx) {
                     "retained_after_the_call": {"encrypt": rd.enc.live_at_end, "decrypt": rd.dec.live_at_end},
                     "encrypt": {"peak_live": rd.enc.peak_live, "largest_block": rd.enc.largest_block, "allocations": rd.enc.allocations},
                     "decrypt": {"peak_live": rd.dec.peak_live, "largest_block": rd.dec.largest_block, "allocations": rd.dec.allocations},
-                    "encrypt_lag_bytes": rd.enc_lag, "decrypt_lag_bytes": rd.dec_lag, "seconds": t0.elapsed().as_secs_f64(), "detail": rd.detail});
+                    "encrypt_lag_bytes": rd.enc_lag, "decrypt_lag_bytes": rd.dec_lag, "decrypt_lag_in_further_records": rd.dec_chunk_lag, "seconds": t0.elapsed().as_secs_f64(), "detail": rd.detail});
                 if !rd.ok {
                     ctx.violation(&format!("C11:{:?}:stream-round-trip-failed", mode), case());
                     continue;
@@ -351,6 +371,13 @@ fn in_process(ctx: &Ctx) {
                     ctx.violation(&format!("C11:{:?}:decrypt-output-lags-more-than-two-chunks", mode), case());
                     continue;
                 }
+                // ... and in units of the stream's own records (a stream of short chunks fits many records into 2 x 64 KiB)
+                if rd.dec_chunk_lag > 2 {
+                    let mut v = case();
+                    v["complete_further_records_consumed_before_a_chunk_was_written"] = json!(rd.dec_chunk_lag);
+                    ctx.violation(&format!("C11:{:?}:decrypt-consumes-more-than-two-further-chunks-before-writing-one", mode), v);
+                    continue;
+                }
                 ctx.seen(&format!("{:?}: {} chunks streamed, peaks flat (enc {} B, dec {} B), lag enc {} dec {}", mode, n, rd.enc.peak_live, rd.dec.peak_live, rd.enc_lag, rd.dec_lag));
                 ctx.seen("streams within memory and lag bounds");
                 ctx.distinct(&format!("{:?}|{}|{}", mode, n, max_read));
@@ -378,7 +405,7 @@ fn in_process(ctx: &Ctx) {
         let b = base.as_ref().unwrap();
         if rd.enc.peak_live > b.enc.peak_live + 256 || rd.dec.peak_live > b.dec.peak_live + 256 {
             ctx.violation("C11:small:memory-grows-with-chunk-count", case());
-        } else if rd.enc_lag > 2 + 2 || rd.dec_lag > 2 * 33 + 2 {
+        } else if rd.enc_lag > 2 + 2 || rd.dec_lag > 2 * 33 + 2 || rd.dec_chunk_lag > 2 {
             ctx.violation("C11:small:output-lags-more-than-two-chunks", case());
         } else {
             ctx.seen(&format!("small scope: {} one-byte chunks streamed, peaks flat", n));
